@@ -29,6 +29,19 @@ class World(object):
         self.ns, self.taxa = build.make_namespace(dendropy, case["nleaves"] + case.get("extra", 0),
                                                   holes=tuple(case.get("holes", ())), labels=case.get("labels") or None)
         self.tree = build.build_tree(dendropy, case["nested"], self.ns, self.taxa, rooted=ROOTED[case["rooted"]])
+        hist = case.get("history")
+        if hist:
+            # a history before the call under test: an earlier label-addressed call that looks at every
+            # taxon of the namespace, then some taxa are renamed.  The tree itself is left as built.
+            current = [t.label for t in self.ns]
+            if hist["touch"] == "tree":
+                self.tree.retain_taxa_with_labels(current, suppress_unifurcations=False)     # keeps everything
+            elif hist["touch"] == "ns":
+                self.ns.get_taxa(labels=current)
+                for lab in current:
+                    self.ns.get_taxon(lab)
+            for i, lab in hist["relabel"]:
+                self.taxa[i].label = lab
         self.codes = proj.TaxonCodes(self.ns)
         if strip_keep is not None:
             # taxon-less leaves: every leaf whose taxon is not kept loses its taxon
@@ -241,6 +254,27 @@ def run_case(case):
 
 
 # ---------------------------------------------------------------------------------------------- cases
+def relabel_history(ntaxa, keep, nleaves, mode, touch):
+    """A history for the label-addressed variants: touch every taxon through a label lookup, then rename
+    some taxa - to fresh labels (0), to each other's labels across the cut (1), to case variants (2), one
+    taxon taking over the old label of another that gets a fresh one (3).  Labels stay pairwise different
+    (also ignoring case), so naming the current labels names the same leaves as naming the Taxon objects."""
+    ks = sorted(keep)
+    ds = [i for i in range(nleaves) if i not in set(keep)]
+    a = ks[0]
+    b = ds[0] if ds else (ks[1] if len(ks) > 1 else None)
+    old = lambda i: "T%d" % (i + 1)
+    if mode == 0 or b is None:
+        plan = [[a, "R%d" % (a + 1)]] + ([[b, "Fresh%d" % (b + 1)]] if b is not None else [])
+    elif mode == 1:
+        plan = [[a, "swap-tmp"], [b, old(a)], [a, old(b)]]
+    elif mode == 2:
+        plan = [[i, old(i).swapcase()] for i in range(ntaxa)]
+    else:
+        plan = [[b, "R%d" % (b + 1)], [a, old(b).swapcase()]]
+    return {"touch": touch, "relabel": plan}
+
+
 def shared_labels(ntaxa, keep, nleaves, variant):
     """Taxon labels in which two taxa of the tree carry the same label (variant 0) or labels that differ
     only in case (variant 1; the namespace is case-insensitive by default).  The pair is taken from the
@@ -294,6 +328,9 @@ def model_cases(ctx, states):
         if (k // 2) % 3 == 0:
             c = cases[-1]
             c["labels"] = shared_labels(nl + c["extra"], c["keep"], nl, (k // 6) % 2) or []
+        elif (k // 2) % 3 == 1:
+            c = cases[-1]
+            c["history"] = relabel_history(nl + c["extra"], c["keep"], nl, (k // 6) % 4, ("ns", "tree", "none")[(k // 24) % 3])
         k += 1
     return cases
 
@@ -327,6 +364,9 @@ def random_cases(ctx, n):
         if rng.random() < 0.4:
             c = cases[-1]
             c["labels"] = shared_labels(nl + c["extra"], keep, nl, rng.randrange(2)) or []
+        elif rng.random() < 0.6:
+            c = cases[-1]
+            c["history"] = relabel_history(nl + c["extra"], keep, nl, rng.randrange(4), rng.choice(("ns", "tree", "tree", "none")))
     return cases
 
 
@@ -381,7 +421,7 @@ def run(ctx):
     ctx.extra["exhaustive_domain"] = ("ordered trees %s (polytomies, unifurcations, unifurcating seeds) with the mixed None/0/positive edge length "
                                       "pattern x every non-empty subset of their taxa x suppress on/off (%d inputs); the model runs additionally "
                                       "cover %s length patterns" % (bound, nmodel, "2" if ctx.quick else "4"))
-    ctx.assumptions.append("domain of the property as driven: taxa on leaves only, each taxon on at most one leaf, labels given in their exact case and naming the same leaves as the Taxon objects (taxa sharing a label, or labels differing only in case, lie on the same side of the cut), "
+    ctx.assumptions.append("domain of the property as driven: taxa on leaves only, each taxon on at most one leaf, labels given in their exact case and naming the same leaves as the Taxon objects (taxa sharing a label, or labels differing only in case, lie on the same side of the cut; label-addressed variants are also run after a history of label lookups and renamings of taxa, the renamed labels staying pairwise distinct ignoring case), "
                            "prune_subtree only at nodes whose parent keeps another child, update_bipartitions=True only on rooted trees "
                            "(on unrooted trees encode_bipartitions collapses the basal bifurcation by design), recursive=True")
 
